@@ -2,7 +2,8 @@
   Properties C01 / C07 — the loopy statement generator on graphs WITH REDUCTIONS
   (`suppAllR`: the reduction-free fragment of `PtProofs.C01Gen` plus index lambdas that are a chain
   of reductions with constant bounds over a reduction-free expression, every bound hoisted into a
-  private scalar of the store — what the installed loopy makes of every reduction).
+  private scalar of the store, or for a 0-d result into a statement of its own — what the installed
+  loopy makes of every reduction).
 
   `loopygen_sound_red_partial`: executing the generated kernel in its own order leaves in every
   output array, at every in-bounds index, the value the output denotes.
@@ -110,7 +111,6 @@ end Traversal
 structure RedFacts (g : LGraph) (shape : Shape) (e : SExpr) (binds : List (String × Nat)) (impl : Strategy)
     (uo : List String) (rvars : List RVar) : Prop where
   ne : isEmptyShape shape = false
-  nd : shape.length ≠ 0
   nonempty : (splitChain e).1 ≠ []
   ints : ∀ c ∈ (splitChain e).1, ∃ l h, c.2.2.1 = .int l ∧ c.2.2.2 = .int h
   nodup : ((splitChain e).1.map (·.2.1)).Nodup
@@ -132,8 +132,8 @@ theorem redNode_facts {g : LGraph} {i : Nat} {shape : Shape} {e : SExpr} {binds 
     RedFacts g shape e binds impl uo rvars := by
   simp only [redNode, hn, Bool.and_eq_true, Bool.not_eq_true', List.all_eq_true, decide_eq_true_eq,
     beq_iff_eq, List.isEmpty_eq_false_iff, beq_eq_false_iff_ne, ne_eq] at h
-  obtain ⟨⟨⟨⟨⟨⟨⟨⟨⟨⟨⟨h1, h2⟩, h3⟩, h4⟩, h5⟩, h6⟩, h7⟩, h8⟩, h9⟩, h10⟩, h11⟩, h12⟩ := h
-  refine ⟨h1, h2, h3, ?_, h5, ?_, h7, h8, ?_, h10, h11, ?_⟩
+  obtain ⟨⟨⟨⟨⟨⟨⟨⟨⟨⟨h1, h3⟩, h4⟩, h5⟩, h6⟩, h7⟩, h8⟩, h9⟩, h10⟩, h11⟩, h12⟩ := h
+  refine ⟨h1, h3, ?_, h5, ?_, h7, h8, ?_, h10, h11, ?_⟩
   · intro c hc
     obtain ⟨a, b⟩ := h4 c hc
     obtain ⟨l, hl⟩ := isIntLit_iff a
@@ -264,6 +264,70 @@ theorem emitStored_nd {hs : List Hoisted} {bd : List String} {id name : String} 
   rw [if_neg (by simpa using hnd)]
   exact ⟨_, rfl⟩
 
+/-- the statement of a hoisted bound of a 0-d result -/
+def tempStmt (bd : List String) (h : Hoisted) : KStmt :=
+  { id := h.id, lhs := h.temp, lhsIdx := [], loops := [], lets := [], rhs := h.e, deps := normDeps bd }
+
+theorem tempStmt_eq (bd : List String) (h : Hoisted) : tempStmt bd h = storeStmt h.id h.temp [] [] [] h.e bd := rfl
+
+def emitTemps (bd : List String) (hs : List Hoisted) (st : St) : St :=
+  hs.foldl (fun st h => st.emit (tempStmt bd h)) st
+
+theorem emitTemps_cons (bd : List String) (h : Hoisted) (hs : List Hoisted) (st : St) :
+    emitTemps bd (h :: hs) st = emitTemps bd hs (st.emit (tempStmt bd h)) := rfl
+
+theorem emitTemps_fields (bd : List String) : ∀ (hs : List Hoisted) (st : St),
+    (emitTemps bd hs st).stmts = (hs.map (tempStmt bd)).reverse ++ st.stmts ∧
+    (emitTemps bd hs st).results = st.results ∧ (emitTemps bd hs st).vng = st.vng
+  | [], st => ⟨by simp [emitTemps], rfl, rfl⟩
+  | h :: hs, st => by
+    obtain ⟨a, b, c⟩ := emitTemps_fields bd hs (st.emit (tempStmt bd h))
+    rw [emitTemps_cons]
+    refine ⟨?_, by rw [b]; rfl, by rw [c]; rfl⟩
+    rw [a]
+    simp [St.emit]
+
+theorem emitStored_0d {hs : List Hoisted} {bd : List String} {id name : String} {inames : List String}
+    {shape : Shape} {rhs : SExpr} {deps : List String} {st : St} (h0 : shape.length = 0) :
+    emitStored hs bd id name inames shape rhs deps st =
+      (emitTemps bd hs st).emit (storeStmt id name inames shape [] rhs deps) := by
+  unfold emitStored
+  rw [if_pos (by simpa using h0)]
+  rfl
+
+theorem emitStored_ext (hs : List Hoisted) (bd : List String) (id name : String) (inames : List String)
+    (shape : Shape) (rhs : SExpr) (deps : List String) (st : St) (hne : isEmptyShape shape = false) :
+    ∃ new, (emitStored hs bd id name inames shape rhs deps st).stmts = new ++ st.stmts ∧
+      (∀ s ∈ new, s.lhs = name ∨ s.lhs ∈ hs.map (·.temp)) ∧
+      (emitStored hs bd id name inames shape rhs deps st).results = st.results ∧
+      (emitStored hs bd id name inames shape rhs deps st).vng = st.vng := by
+  by_cases h0 : shape.length = 0
+  · rw [emitStored_0d h0]
+    obtain ⟨a, b, c⟩ := emitTemps_fields bd hs st
+    refine ⟨storeStmt id name inames shape [] rhs deps :: (hs.map (tempStmt bd)).reverse, ?_, ?_, b, c⟩
+    · simp [St.emit, a]
+    · intro s hs'
+      rcases List.mem_cons.1 hs' with rfl | hs'
+      · exact Or.inl (storeStmt_lhs hne)
+      · obtain ⟨h, hh, rfl⟩ := List.mem_map.1 (List.mem_reverse.1 hs')
+        exact Or.inr (List.mem_map.2 ⟨h, hh, rfl⟩)
+  · obtain ⟨deps', hem⟩ := emitStored_nd (hs := hs) (bd := bd) (id := id) (name := name) (inames := inames)
+      (rhs := rhs) (deps := deps) (st := st) h0
+    rw [hem]
+    exact ⟨[_], rfl, fun s hs' => Or.inl (by
+      rw [List.mem_singleton.1 hs']; exact storeStmt_lhs hne), rfl, rfl⟩
+
+theorem ExtF.of_new {st st4 st' : St} (he : Ext st st4) (hs4 : st4.stmts = st.stmts) {new : List KStmt}
+    (hnew : st'.stmts = new ++ st4.stmts) (hres : ∀ x ∈ st4.results, x ∈ st'.results)
+    (hex : ∀ x ∈ st4.vng.existing, x ∈ st'.vng.existing) (hl : ∀ s ∈ new, s.lhs ∉ st.vng.existing) :
+    ExtF st st' := by
+  refine ⟨he.trans ⟨⟨new, hnew⟩, hex, hres⟩, fun new' hnew' t htn => ?_⟩
+  have : new' = new := by
+    have h0 : new' ++ st.stmts = new ++ st.stmts := by rw [← hnew', hnew, hs4]
+    exact List.append_cancel_right h0
+  subst this
+  exact hl t htn
+
 theorem mapNode_extF {g : LGraph} : ∀ (fuel i : Nat) (st : St) (r : Impl) (st' : St),
     mapNode g fuel i st = .ok (r, st') → suppAllR g fuel i = true → ExtF st st'
   | 0, _, _, _, _, h, _ => by simp [mapNode] at h
@@ -353,29 +417,48 @@ theorem mapNode_extF {g : LGraph} : ∀ (fuel i : Nat) (st : St) (r : Impl) (st'
             obtain ⟨id, st4⟩ := idr
             simp only [Res.ok.injEq, Prod.mk.injEq] at hst
             obtain ⟨_, rfl⟩ := hst
-            obtain ⟨deps', hem⟩ := emitStored_nd (hs := ls.flatMap RL.hs) (bd := bd) (id := id) (name := name)
-              (inames := inames) (rhs := readBackBounds (ls.flatMap RL.hs) uniq (substIdx (inameVars inames) le))
-              (deps := bd ++ genDeps (ns ++ (ls.flatMap RL.hs).map fun h => (h.temp, Impl.stored h.temp [h.id])) []
-                (renameRed uniq (replaceBounds (ls.map RL.nb) e))) (st := st4) hf.nd
-            rw [hem]
             have d1 := tempName_drew hnm
             obtain ⟨d2, _⟩ := St.vars_drew hins
             have hst4 : st4.stmts = st1.stmts := by
               obtain ⟨g', _, rfl⟩ := St.insnId_ok hid
               show st3'.stmts = _
               rw [hd.stmts, d2.stmts, d1.stmts]
+            have hex13 : ∀ x ∈ st1.vng.existing, x ∈ st3.vng.existing := fun x hx =>
+              (d2.mem x).2 (Or.inr (by rw [d1.ex]; exact List.mem_cons_of_mem _ hx))
             have hext14 : Ext st1 st4 := by
               obtain ⟨g', _, rfl⟩ := St.insnId_ok hid
               refine ⟨⟨[], by show st3'.stmts = _; rw [hd.stmts, d2.stmts, d1.stmts]; rfl⟩, ?_, ?_⟩
               · intro x hx
                 show x ∈ st3'.vng.existing
-                exact (hd.mem x).2 (Or.inr ((d2.mem x).2 (Or.inr (by rw [d1.ex]; exact List.mem_cons_of_mem _ hx))))
+                exact (hd.mem x).2 (Or.inr (hex13 x hx))
               · intro x hx
                 show x ∈ st3'.results
                 rw [hd.results, d2.results, d1.results]; exact hx
-            refine h0.trans (h1.trans (ExtF.of_emit hext14 hst4 _ ?_ _ _))
-            rw [storeStmt_lhs hf.ne]
-            exact d1.fresh
+            obtain ⟨new, hnew, hlhs, hres, hvng⟩ := emitStored_ext (ls.flatMap RL.hs) bd id name inames shape
+              (readBackBounds (ls.flatMap RL.hs) uniq (substIdx (inameVars inames) le))
+              (bd ++ genDeps (ns ++ (ls.flatMap RL.hs).map fun h => (h.temp, Impl.stored h.temp [h.id])) []
+                (renameRed uniq (replaceBounds (ls.map RL.nb) e))) st4 hf.ne
+            refine h0.trans (h1.trans (ExtF.of_new hext14 hst4 (new := new) ?_ ?_ ?_ ?_))
+            · simpa [St.remember] using hnew
+            · intro x hx
+              simp only [St.remember, List.mem_cons]
+              exact Or.inr (by rw [hres]; exact hx)
+            · intro x hx
+              show x ∈ (emitStored _ _ _ _ _ _ _ _ st4).vng.existing
+              rw [hvng]; exact hx
+            · intro s hs0
+              rcases hlhs s hs0 with hl | hl
+              · rw [hl]; exact d1.fresh
+              · intro hx
+                obtain ⟨h', hh', he'⟩ := List.mem_map.1 hl
+                have htm : s.lhs ∈ ls.flatMap RL.temps := by
+                  obtain ⟨r0, hr0, hin0⟩ := List.mem_flatMap.1 hh'
+                  refine List.mem_flatMap.2 ⟨r0, hr0, ?_⟩
+                  simp only [RL.hs, List.mem_cons, List.mem_nil_iff, or_false] at hin0
+                  rcases hin0 with rfl | rfl
+                  · simp [RL.temps, ← he']
+                  · simp [RL.temps, ← he']
+                exact hd.fresh _ htm (hex13 _ hx)
 
 /-! ## helpers for the reduction case -/
 
@@ -467,6 +550,12 @@ theorem noScopeVarsList_of_ranks (rk : String → Option Nat) (vars scope : List
     exact ⟨noScopeVars_of_ranks rk vars scope n hsc e h.1 hr.1, noScopeVarsList_of_ranks rk vars scope n hsc es h.2 hr.2⟩
 end
 
+theorem hs_temps : ∀ (ls : List RL), (ls.flatMap RL.hs).map (·.temp) = ls.flatMap RL.temps
+  | [] => rfl
+  | r :: rest => by
+    simp only [List.flatMap_cons, List.map_append, hs_temps rest]
+    rfl
+
 theorem readNames_chain_ker (B : SExpr) : ∀ (ls : List RL) (x : String),
     x ∈ readNames (mkChain (ls.map RL.ker) B) → x ∈ ls.flatMap RL.temps ∨ x ∈ readNames B
   | [], x, h => Or.inr (by simpa [mkChain] using h)
@@ -517,6 +606,64 @@ theorem den_shapeR {g : LGraph} {inp : String → Arr Val} {σ0 : Store} {inputN
   | refused w => simp [suppNodeR, suppNode, redNode, hn] at hs
   | other w => simp [suppNodeR, suppNode, redNode, hn] at hs
 
+/-! ## the bound temporaries of a 0-d result: statements of their own -/
+
+section Temps
+variable {g : LGraph} {inp : String → Arr Val} {σ0 : Store} {inputNames E0 done : List String}
+
+theorem emitTemps_spec (bd : List String) : ∀ (hsl : List Hoisted) (st : St),
+    Inv g inp σ0 inputNames E0 done st → (hsl.map (·.temp)).Nodup →
+    (∀ h ∈ hsl, ¬ arrNames inputNames st h.temp ∧ h.temp ∈ st.vng.existing ∧ h.temp ∉ E0 ∧ ∃ n, h.e = .int n) →
+    Alloc σ0 (emitTemps bd hsl st).stmts →
+    Inv g inp σ0 inputNames E0 done (emitTemps bd hsl st) ∧
+    (∀ x, arrNames inputNames (emitTemps bd hsl st) x ↔ x ∈ hsl.map (·.temp) ∨ arrNames inputNames st x) ∧
+    (∀ x, x ∉ hsl.map (·.temp) → (storeOf σ0 (emitTemps bd hsl st)).get? x = (storeOf σ0 st).get? x) ∧
+    (∀ h ∈ hsl, ∀ n, h.e = .int n →
+      ∃ a, (storeOf σ0 (emitTemps bd hsl st)).get? h.temp = some a ∧ a.shape = [] ∧ a.get [] = .i n)
+  | [], st, hinv, _, _, _ => ⟨hinv, by simp [emitTemps], fun _ _ => rfl, by simp⟩
+  | h :: rest, st, hinv, hnd, hall, hal => by
+    have hnd' : h.temp ∉ rest.map (·.temp) ∧ (rest.map (·.temp)).Nodup := List.nodup_cons.1 hnd
+    obtain ⟨hname, hEx, hE0, n, hn⟩ := hall h (by simp)
+    rw [emitTemps_cons] at hal ⊢
+    obtain ⟨hstm, _, _⟩ := emitTemps_fields bd rest (st.emit (tempStmt bd h))
+    have hal1 : Alloc σ0 (tempStmt bd h :: st.stmts) :=
+      hal.sub ⟨(rest.map (tempStmt bd)).reverse, by rw [hstm]; rfl⟩
+    rw [tempStmt_eq] at hal1 hal ⊢
+    obtain ⟨hinv1, hG1, hσ1, b, hb, hbs, hbq⟩ := Inv.emitL (id := h.id) (name := h.temp) (inames := []) (shape := [])
+      (lets := []) (rhs := h.e) (deps := bd) hinv rfl rfl List.nodup_nil hname hEx (Or.inr hE0) hal1
+      (by rw [hn]; simp [readNames]) (by simp)
+    obtain ⟨hinv', hG', hσ', hval'⟩ := emitTemps_spec bd rest _ hinv1 hnd'.2 (by
+      intro h' hh'
+      obtain ⟨a1, a2, a3, a4⟩ := hall h' (List.mem_cons_of_mem _ hh')
+      refine ⟨fun hx => ?_, a2, a3, a4⟩
+      rcases (hG1 _).1 hx with hx | hx
+      · exact hnd'.1 (hx ▸ List.mem_map.2 ⟨h', hh', rfl⟩)
+      · exact a1 hx) hal
+    refine ⟨hinv', ?_, ?_, ?_⟩
+    · intro x
+      rw [hG', hG1]
+      simp only [List.map_cons, List.mem_cons]
+      constructor
+      · rintro (h1 | h1 | h1)
+        · exact Or.inl (Or.inr h1)
+        · exact Or.inl (Or.inl h1)
+        · exact Or.inr h1
+      · rintro ((h1 | h1) | h1)
+        · exact Or.inr (Or.inl h1)
+        · exact Or.inl h1
+        · exact Or.inr (Or.inr h1)
+    · intro x hx
+      simp only [List.map_cons, List.mem_cons, not_or] at hx
+      rw [hσ' x hx.2, hσ1 x hx.1]
+    · intro h' hh' m hm
+      rcases List.mem_cons.1 hh' with rfl | hh'
+      · refine ⟨b, by rw [hσ' _ hnd'.1]; exact hb, hbs, ?_⟩
+        rw [hbq [] rfl, hm]
+        simp [eval]
+      · exact hval' h' hh' m hm
+
+end Temps
+
 /-! ## the traversal establishes the invariant -/
 
 section Spec
@@ -551,6 +698,7 @@ theorem red_spec (hy : Hyp g inp σ0 inputNames) (hE0 : ∀ x ∈ inputNames, x 
     {binds : List (String × Nat)} {impl : Strategy} {tag : NameTag} {uo : List String} {rvars : List RVar}
     (hn : g.get i = .indexLambda shape e binds impl tag uo rvars) (hf : RedFacts g shape e binds impl uo rvars)
     (hkb : ∀ b ∈ binds, suppAllR g fuel b.2 = true)
+    (hnd : shape.length ≠ 0)
     (hm : lookupResult st.results i = none) (h : mapNode g (fuel + 1) i st = .ok (r, st'))
     (hinv : Inv g inp σ0 inputNames E0 done st) (hal : Alloc σ0 st'.stmts) :
     Inv g inp σ0 inputNames E0 done st' ∧ (i, r) ∈ st'.results := by
@@ -569,7 +717,7 @@ theorem red_spec (hy : Hyp g inp σ0 inputNames) (hE0 : ∀ x ∈ inputNames, x 
   obtain ⟨deps', hem⟩ := emitStored_nd (hs := ls.flatMap RL.hs) (bd := bd) (id := id) (name := name)
     (inames := inames)
     (rhs := readBackBounds (ls.flatMap RL.hs) uniq (substIdx (inameVars inames) (mkChain (ls.map RL.renamed) b')))
-    (deps := deps) (st := st4) hf.nd
+    (deps := deps) (st := st4) hnd
   rw [hem, lets_emitStored] at hst'
   subst hst'
   -- the states
@@ -729,6 +877,210 @@ theorem red_spec (hy : Hyp g inp σ0 inputNames) (hE0 : ∀ x ∈ inputNames, x 
     exact (genR_sound hnsl q shape.length uniq (ls.map (·.u)).reverse hin Δ' (splitChain e).2 b'
       hf.body hrk' hnsv hgen).2.2 Γ' hav hren hsafeb
 
+/-- a stored REDUCTION of the fragment with a 0-d result: the bound temporaries are statements -/
+theorem red_spec0 (hy : Hyp g inp σ0 inputNames) (hE0 : ∀ x ∈ inputNames, x ∈ E0) {fuel i : Nat}
+    (IH : SpecAtR g inp σ0 inputNames E0 done fuel) {st st' : St} {r : Impl} {shape : Shape} {e : SExpr}
+    {binds : List (String × Nat)} {impl : Strategy} {tag : NameTag} {uo : List String} {rvars : List RVar}
+    (hn : g.get i = .indexLambda shape e binds impl tag uo rvars) (hf : RedFacts g shape e binds impl uo rvars)
+    (hkb : ∀ b ∈ binds, suppAllR g fuel b.2 = true)
+    (h0 : shape.length = 0)
+    (hm : lookupResult st.results i = none) (h : mapNode g (fuel + 1) i st = .ok (r, st'))
+    (hinv : Inv g inp σ0 inputNames E0 done st) (hal : Alloc σ0 st'.stmts) :
+    Inv g inp σ0 inputNames E0 done st' ∧ (i, r) ∈ st'.results := by
+  obtain ⟨uniq, stu, ns, st1, bd, hun, hrec, hst⟩ := mapNode_red_inv hn hf hm h
+  obtain ⟨huq, du⟩ := uniqNames_inv hun
+  have hextF := recAll_extF (mapNode_extF fuel) binds stu ns st1 hrec hkb
+  have hnames := recAll_names hrec
+  have hfound : ∀ x k, rankIn g binds x = some k → lookupNs ns x ≠ none := by
+    intro x k hx hnone
+    exact (lookupNs_none_iff.1 hnone) (by rw [hnames]; exact rankIn_some_mem hx)
+  have hUex1 : ∀ p ∈ uniq, p.2 ∈ st1.vng.existing := fun p hp =>
+    hextF.ext.ex _ ((du.mem _).2 (Or.inl (List.mem_map.2 ⟨p, hp, rfl⟩)))
+  obtain ⟨name, st2, inames, st3, ls, st3', b', id, st4, deps, hnm, hins, hls, huniq, hd, hgu, hgen, hid, rfl, hst'⟩ :=
+    ilStore_invR (rankIn g binds) (n := shape.length) (splitChain_mk e).symm hf.ne hf.nodup hf.ints hf.rv hf.flags
+      (huq.trans hf.uo) hf.body hf.ranks hfound hUex1 hst
+  rw [emitStored_0d h0] at hst'
+  subst hst'
+  -- the states
+  have d1 := tempName_drew hnm
+  obtain ⟨d2, hl2⟩ := St.vars_drew hins
+  have hst4 : st4.stmts = st1.stmts := by
+    obtain ⟨g', _, rfl⟩ := St.insnId_ok hid
+    show st3'.stmts = _
+    rw [hd.stmts, d2.stmts, d1.stmts]
+  have hres4 : st4.results = st1.results := by
+    obtain ⟨g', _, rfl⟩ := St.insnId_ok hid
+    show st3'.results = _
+    rw [hd.results, d2.results, d1.results]
+  have hex34 : st4.vng.existing = st3'.vng.existing := by
+    obtain ⟨g', _, rfl⟩ := St.insnId_ok hid
+    rfl
+  have hex13 : ∀ x ∈ st1.vng.existing, x ∈ st3.vng.existing := fun x hx =>
+    (d2.mem x).2 (Or.inr (by rw [d1.ex]; exact List.mem_cons_of_mem _ hx))
+  have hex14 : ∀ x ∈ st1.vng.existing, x ∈ st4.vng.existing := fun x hx => by
+    rw [hex34]; exact (hd.mem x).2 (Or.inr (hex13 x hx))
+  -- the bindings
+  obtain ⟨hinv1, hres⟩ := recAll_specR IH binds stu ns st1 hrec hkb (hinv.drewMany du)
+    (hal.sub ⟨storeStmt id name inames shape []
+      (readBackBounds (ls.flatMap RL.hs) uniq (substIdx (inameVars inames) (mkChain (ls.map RL.renamed) b')))
+      deps :: ((ls.flatMap RL.hs).map (tempStmt bd)).reverse, by
+        simp [St.remember, St.emit, (emitTemps_fields bd (ls.flatMap RL.hs) st4).1, hst4]⟩)
+  have hinv4 : Inv g inp σ0 inputNames E0 done st4 := hinv1.grow hst4 hres4 hex14
+  have hG41 : ∀ x, arrNames inputNames st4 x ↔ arrNames inputNames st1 x := by
+    intro x; simp [arrNames, hst4]
+  have hns4 := nsOK_of (g := g) (inp := inp) hinv4.results (by rw [hres4]; exact hres)
+  -- names
+  have hvs : ls.map (·.v) = (splitChain e).1.map (·.2.1) := by rw [← hls]; simp [RL.sem]
+  have hus : uniq.map (·.2) = ls.map (·.u) := by rw [huniq]; simp [RL.pair]
+  have hUst1 : ∀ u ∈ ls.map (·.u), u ∈ st1.vng.existing := by
+    intro u hu
+    rw [← hus] at hu
+    obtain ⟨p, hp, rfl⟩ := List.mem_map.1 hu
+    exact hUex1 p hp
+  have hG4ex : ∀ x, arrNames inputNames st4 x → x ∈ st1.vng.existing :=
+    fun x hx => hinv1.names x ((hG41 x).1 hx)
+  have hUG : ∀ u ∈ ls.map (·.u), ¬ arrNames inputNames st4 u := by
+    intro u hu hG
+    have hufresh : u ∉ st.vng.existing := du.fresh u (by rw [hus]; exact hu)
+    have hustu : u ∈ stu.vng.existing := (du.mem u).2 (Or.inl (by rw [hus]; exact hu))
+    rcases (hG41 u).1 hG with hin | hin
+    · exact hufresh (hinv.seeds u (hE0 u hin))
+    · obtain ⟨new, hnew⟩ := hextF.ext.stmts
+      rw [hnew, List.map_append, List.mem_append] at hin
+      rcases hin with hin | hin
+      · obtain ⟨s, hs, rfl⟩ := List.mem_map.1 hin
+        exact hextF.fresh new hnew s hs hustu
+      · rw [du.stmts] at hin
+        exact hufresh (hinv.names u (Or.inr hin))
+  have hname : ¬ arrNames inputNames st4 name := fun hx => d1.fresh (hG4ex name hx)
+  have hnameEx : name ∈ st4.vng.existing := by
+    rw [hex34]; exact (hd.mem name).2 (Or.inr ((d2.mem name).2 (Or.inr (by rw [d1.ex]; simp))))
+  have hGin : ∀ x, arrNames inputNames st4 x → x ∉ inames := fun x hx hxi =>
+    d2.fresh x hxi (by rw [d1.ex]; exact List.mem_cons_of_mem _ (hG4ex x hx))
+  have hUin : ∀ u ∈ ls.map (·.u), u ∉ inames := fun u hu hxi =>
+    d2.fresh u hxi (by rw [d1.ex]; exact List.mem_cons_of_mem _ (hUst1 u hu))
+  have hTfresh : ∀ t ∈ ls.flatMap RL.temps, t ∉ st3.vng.existing := hd.fresh
+  have hTin : ∀ t ∈ ls.flatMap RL.temps, t ∉ inames := fun t ht hti =>
+    hTfresh t ht ((d2.mem t).2 (Or.inl hti))
+  have hTU : ∀ t ∈ ls.flatMap RL.temps, t ∉ ls.map (·.u) := fun t ht htu =>
+    hTfresh t ht (hex13 t (hUst1 t htu))
+  have hTG : ∀ t ∈ ls.flatMap RL.temps, ¬ arrNames inputNames st4 t := fun t ht hG =>
+    hTfresh t ht (hex13 t (hG4ex t hG))
+  have hTname : name ∉ ls.flatMap RL.temps := fun ht =>
+    hTfresh name ht ((d2.mem name).2 (Or.inr (by rw [d1.ex]; simp)))
+  have hUname : name ∉ ls.map (·.u) := fun hu => d1.fresh (hUst1 name hu)
+  have hlen : inames.length = shape.length := by rw [hl2, length_dimNames]
+  -- the expression
+  have hden := den_il hy.wf inp hn
+  have hrk' : ranksOKS (rankOf (binds.map fun b => (b.1, den g inp b.2))) (uniq.map (·.1)) (splitChain e).2 = true := by
+    rw [rankOf_binds binds (fun b hb => den_shapeR hy (suppAllR_node (hkb b hb))), huq, hf.uo]
+    exact hf.ranks
+  have hin : ∀ x u, lookupStr uniq x = some u → (ls.map (·.u)).reverse.contains u = true := by
+    intro x u hxu
+    have := (lookupStr_some_mem hxu).2
+    rw [hus] at this
+    simpa using this
+  have hnsv : noScopeVars (ls.map (·.u)).reverse (splitChain e).2 = true := by
+    apply noScopeVars_of_ranks (rankIn g binds) ((splitChain e).1.map (·.2.1)) _ shape.length _ _ hf.body hf.ranks
+    intro u hu
+    obtain ⟨r, hr, rfl⟩ := List.mem_map.1 (List.mem_reverse.1 hu)
+    obtain ⟨a1, a2, _, _⟩ := hgu r hr
+    refine ⟨a1, ?_⟩
+    cases hrk : rankIn g binds r.u with
+    | none => rfl
+    | some k => exact absurd a2 (hfound _ k hrk)
+  obtain ⟨hb1, hb2, _⟩ := genR_sound hns4 [] shape.length uniq (ls.map (·.u)).reverse hin [] (splitChain e).2 b'
+    hf.body hrk' hnsv hgen
+  have hb1' : exprOK (inameVars inames).length b' = true := by simpa [inameVars, hlen] using hb1
+  have hsb : exprOK shape.length (substIdx (inameVars inames) b') = true :=
+    exprOK_substIdx (inameVars inames) (exprOKList_inameVars _ inames) b' hb1'
+  have hrhs : readBackBounds (ls.flatMap RL.hs) uniq (substIdx (inameVars inames) (mkChain (ls.map RL.renamed) b'))
+      = mkChain (ls.map RL.ker) (substIdx (inameVars inames) b') := by
+    rw [substIdx_chain_ker, readBackBounds_chain _ uniq _ hsb ls (fun r hr => any_temp_hs hr)]
+  rw [hrhs] at hal ⊢
+  -- the bound temporaries
+  have htn : (ls.flatMap RL.hs).map (·.temp) = ls.flatMap RL.temps := hs_temps ls
+  obtain ⟨hstmT, hresT, hvngT⟩ := emitTemps_fields bd (ls.flatMap RL.hs) st4
+  obtain ⟨hinvT, hGT, hσT, hvalT⟩ := emitTemps_spec (g := g) (inp := inp) (σ0 := σ0) (inputNames := inputNames)
+    (E0 := E0) (done := done) bd (ls.flatMap RL.hs) st4 hinv4 (by rw [htn]; exact hd.nodup) (by
+      intro h' hh'
+      have htm : h'.temp ∈ ls.flatMap RL.temps := by rw [← htn]; exact List.mem_map.2 ⟨h', hh', rfl⟩
+      refine ⟨hTG _ htm, by rw [hex34]; exact (hd.mem _).2 (Or.inl htm),
+        fun hE => hTfresh _ htm (hex13 _ (hinv1.seeds _ hE)), ?_⟩
+      obtain ⟨r0, _, hin0⟩ := List.mem_flatMap.1 hh'
+      simp only [RL.hs, List.mem_cons, List.mem_nil_iff, or_false] at hin0
+      rcases hin0 with rfl | rfl
+      · exact ⟨_, rfl⟩
+      · exact ⟨_, rfl⟩)
+    (hal.sub ⟨[storeStmt id name inames shape [] (mkChain (ls.map RL.ker) (substIdx (inameVars inames) b')) deps],
+      by simp [St.remember, St.emit]⟩)
+  rw [htn] at hGT hσT
+  have hth : TempsHold (storeOf σ0 (emitTemps bd (ls.flatMap RL.hs) st4)) ls := by
+    intro r hr
+    refine ⟨hvalT ⟨r.v, r.tl, r.il, .int r.l⟩ (List.mem_flatMap.2 ⟨r, hr, by simp [RL.hs]⟩) r.l rfl,
+      hvalT ⟨r.v, r.tu, r.iu, .int r.h⟩ (List.mem_flatMap.2 ⟨r, hr, by simp [RL.hs]⟩) r.h rfl⟩
+  -- the store
+  have hread : name ∉ readNames (mkChain (ls.map RL.ker) (substIdx (inameVars inames) b')) := by
+    intro hx
+    rcases readNames_chain_ker _ ls name hx with hx | hx
+    · exact hTname hx
+    · rcases readNames_substIdx_sub (inameVars inames) b' name hx with hx | hx
+      · rcases hb2 name hx with hx | hx
+        · exact hname hx
+        · exact hUname (List.mem_reverse.1 hx)
+      · rw [readNamesList_inameVars] at hx
+        exact d2.fresh name hx (by rw [d1.ex]; simp)
+  have hnameT : ¬ arrNames inputNames (emitTemps bd (ls.flatMap RL.hs) st4) name := by
+    intro hx
+    rcases (hGT name).1 hx with hx | hx
+    · exact hTname hx
+    · exact hname hx
+  obtain ⟨hinvE, hGE, hσE, b, hb, hbs, hbq⟩ := Inv.emitL (id := id) (lets := []) (deps := deps) hinvT hf.ne hlen
+    d2.nodup hnameT (by rw [hvngT]; exact hnameEx) (Or.inr (fun hE => d1.fresh (hinv1.seeds name hE)))
+    (by simpa [St.remember, St.emit] using hal) hread (by simp)
+  refine ⟨Inv.remember hinvE ?_, by simp [St.remember]⟩
+  refine ⟨(hGE name).2 (Or.inl rfl), b, hb, by rw [hbs, hden]; rfl, fun q hq => ?_⟩
+  have hq' : inB shape q = true := by rw [hden] at hq; exact hq
+  rw [hbq q hq', hden]
+  show _ = eval (idxEnv q (binds.map fun b => (b.1, den g inp b.2))) e
+  simp only [bindLets]
+  have hsafe := hy.safe i shape e binds impl tag uo rvars hn q hq'
+  have he : e = mkChain (ls.map RL.sem) (splitChain e).2 := by rw [hls]; exact (splitChain_mk e).symm
+  rw [he] at hsafe
+  conv => rhs; rw [he]
+  have hql : inames.length = q.length := by rw [hlen, inB_length hq']
+  -- the namespace in the store after the bound temporaries
+  have hnsl : NsOK (storeOf σ0 (emitTemps bd (ls.flatMap RL.hs) st4))
+      (arrNames inputNames st4) ns (binds.map fun b => (b.1, den g inp b.2)) := by
+    intro x r hx
+    obtain ⟨D, hD, hok⟩ := hns4 x r hx
+    exact ⟨D, hD, hok.mono (fun _ h => h) (fun y hy => hσT y (fun ht => hTG y ht hy))⟩
+  apply chain_eval _ _
+    (fun Γ => Avoids (arrNames inputNames st4) Γ ∧
+      evalList { pt := [], ix := Γ, arr := storeOf σ0 (emitTemps bd (ls.flatMap RL.hs) st4) }
+        (inameVars inames) = idxVals q)
+    [] q (splitChain e).2 (substIdx (inameVars inames) b') (ls.map (·.u)) (ls.flatMap RL.temps) hTU
+    ?_ ls [] [] (pointEnv inames q []) ⟨fun x u h => by simp [lookupStr] at h, fun _ _ => rfl⟩
+    ⟨avoids_pointEnv hGin q, evalList_inameVars _ inames q [] d2.nodup hql [] (by simp)⟩
+    ?_ ?_ (by rw [hvs]; exact hf.nodup) (by rw [← hus]; exact du.nodup) hth hsafe ?_
+  · rintro Γ u n hu ⟨hav, hev⟩
+    refine ⟨fun x hx => ?_, ?_⟩
+    · rw [lookupIxL_cons, if_neg (fun (e : u = x) => hUG u hu (by rw [e]; exact hx))]
+      exact hav x hx
+    · rw [evalList_inameVars_cons _ _ _ _ _ inames (hUin u hu)]
+      exact hev
+  · intro t ht
+    rw [lookup_pointEnv_outer inames q [] t (hTin t ht)]
+    rfl
+  · intro r hr
+    refine ⟨List.mem_map.2 ⟨r, hr, rfl⟩, List.mem_flatMap.2 ⟨r, hr, by simp [RL.temps]⟩,
+      List.mem_flatMap.2 ⟨r, hr, by simp [RL.temps]⟩, by simp, by simp⟩
+  · rintro Δ' Γ' hren ⟨hav, hev⟩ hsafeb
+    rw [List.nil_append, ← huniq] at hren
+    rw [eval_substIdx (inameVars inames) q b' _ hb1' hev]
+    exact (genR_sound hnsl q shape.length uniq (ls.map (·.u)).reverse hin Δ' (splitChain e).2 b'
+      hf.body hrk' hnsv hgen).2.2 Γ' hav hren hsafeb
+
 theorem mapNode_specR (hy : Hyp g inp σ0 inputNames) (hE0 : ∀ x ∈ inputNames, x ∈ E0)
     (hdone : ∀ x ∈ done, x ∉ inputNames) :
     ∀ (fuel : Nat), SpecAtR g inp σ0 inputNames E0 done fuel
@@ -849,7 +1201,9 @@ theorem mapNode_specR (hy : Hyp g inp σ0 inputNames) (hE0 : ∀ x ∈ inputName
                 exact (gen_sound hns q shape.length e le hok hrk' hgen).2.2 _ (avoids_pointEnv hGin q)
                   (hsafe q hq))
             exact ⟨this, by simp [St.remember]⟩
-        · exact red_spec hy hE0 IH hn (redNode_facts hn hred) hkb hm h hinv hal
+        · by_cases h0 : shape.length = 0
+          · exact red_spec0 hy hE0 IH hn (redNode_facts hn hred) hkb h0 hm h hinv hal
+          · exact red_spec hy hE0 IH hn (redNode_facts hn hred) hkb h0 hm h hinv hal
 
 end Spec
 
@@ -977,9 +1331,9 @@ end Outputs
 /-- **loopygen_sound_red_partial.**  Let the model of the statement generator produce the kernel `k` for
     the graph `g` with the given outputs (in compute order), every node reachable from an output
     being in the fragment `suppAllR` (decidable; the driver reports it for every real graph): the
-    reduction-free fragment of `loopygen_sound_partial`, or an index lambda with at least one axis
-    that is a chain of reductions with constant bounds over a reduction-free expression, every bound
-    hoisted into a private scalar of the store.  Let the initial store bind every input to an array of its declared shape (`Hyp.inputs`)
+    reduction-free fragment of `loopygen_sound_partial`, or an index lambda that is a chain of
+    reductions with constant bounds over a reduction-free expression, every bound hoisted (into a
+    private scalar of the store; for a 0-d result into a statement of its own).  Let the initial store bind every input to an array of its declared shape (`Hyp.inputs`)
     and allocate every array the kernel writes with the extent of its loop box (`Alloc`); let every
     subscript the index lambdas evaluate at in-bounds points be in bounds (`Hyp.safe`, the
     memory-safety property of C11).  Then after executing the statements of `k` in the order they
